@@ -613,23 +613,25 @@ def main():
                 bad.append((k, "implementation deviates from Spec (first whole-string match in registration order)"))
         if rcj != 0 or len(jout) != len(jidx):
             c.broke("judge run", jerr)
-        nexp = 0
-        for k, cs in enumerate(full):
-            if cs in exp_full and k < len(out_i):
-                hid, params, kind = exp_full[cs]
-                o = out_i[k].split()
-                if len(o) == 2 and o[0].startswith("ok:"):
-                    nexp += 1
-                    if kind == "rh":
-                        ok = o[1].startswith("R%d:" % hid) and o[1].split(":")[1].split(",")[1:] == [hx(p) for p in params]
-                    else:
-                        ok = o[1] == "R%d:%s" % (hid, ",".join(hx(p) for p in params))
-                    if not ok:
-                        bad.append((k, "URL produced by the mapper is not routed to the handler of its key with the same parameters"))
-                else:
-                    bad.append((k, "mapper failed on a key/arity that was registered"))
+        # R cases: the hypothesis of mapper_dispatch_consistent (`Consistent`, decidable) is evaluated in Lean on the recorded
+        # engine answers; where it holds the implementation must have mapped to root++u and run the key's handler with the parameters
+        ridx = [k for k, cs in enumerate(full) if cs in exp_full and k < len(out_i)]
+        rlines = []
+        for k in ridx:
+            hid, params, kind = exp_full[full[k]]
+            rlines.append("JR %d %s %s # %s" % (hid, "rh" if kind == "rh" else "plain", full[k], out_i[k]))
+        rcr, rout, rerr = c.run_lines(model, rlines)
+        if rcr != 0 or len(rout) != len(ridx):
+            c.broke("judge run (Consistent)", rerr)
+        ncons = 0
+        for k, o in zip(ridx, rout):
+            if o == "1 c":
+                ncons += 1
+            elif o != "1 n":
+                bad.append((k, "site is Consistent but the URL produced by the mapper is not routed to the handler of its key with the same parameters"))
+        c.extra_cov["roundtrip_cases"] = len(ridx)
+        c.extra_cov["roundtrip_cases_consistent_and_confirmed"] = ncons
         c.extra_cov["judged_impl_outputs"] = len(jidx)
-        c.extra_cov["roundtrip_expectations_checked"] = nexp
         if crashed:
             c.violation("sanitizer abort / crash / exception out of the real code", {"case": crashed["case"], "stderr": crashed["stderr"]})
         bad.sort(key=lambda t: (t[0] >= len(corpus), len(full[t[0]])))   # corpus witnesses first, then the shortest
